@@ -220,8 +220,14 @@ func (s *SoftwrapScanner) Scan(ctx vxfw.DrawContext) bool {
 			}
 			s.rest = []byte{}
 			// Append characters to token until we reach the end
+			full := false
 			for _, char := range wordChars {
-				if w >= s.width {
+				// The line takes graphemes while they fit, and
+				// always at least one
+				if len(s.token) > 0 && w+uint16(char.Width) > s.width {
+					full = true
+				}
+				if full {
 					// Append the rest to rest
 					s.rest = append(s.rest, []byte(char.Grapheme)...)
 					continue
